@@ -322,7 +322,8 @@ def _a2():
         "arange_lt": (lambda x, i: jnp.where(jnp.arange(4) < i, x, 0.0), S4),
     }
     for name, (fn, specs) in fam.items():
-        _reg("A2", name, functools.partial(P, fn, specs))
+        kw = {"meta": {"sorted_inputs": {0: "inc"}}} if name == "searchsorted" else {}
+        _reg("A2", name, functools.partial(P, fn, specs, **kw))
 
 
 # the remaining families are defined in their own modules and registered here lazily
